@@ -3,6 +3,7 @@ package boolfn
 import (
 	"sort"
 	"strconv"
+	"strings"
 
 	"golang.org/x/tools/go/ssa"
 )
@@ -279,6 +280,19 @@ func (e *Eval) symCall(name string, c *ssa.CallCommon, args []Val, cond int) (Va
 			unsupported("write to a builder under a symbolic condition")
 		}
 		return args[0].cell
+	}
+	if strings.HasPrefix(name, "slices.Reverse[") && len(args) == 1 && args[0].Kind == KSlice && (args[0].cell == nil || args[0].cell.items == nil) {
+		// in place, under the condition of the call
+		el, lo, hi := args[0].Elems, args[0].Lo, args[0].Hi
+		old := append([][]int(nil), el[lo:hi]...)
+		for i := range old {
+			nw := make([]int, len(old[i]))
+			for b := range nw {
+				nw[b] = e.M.Ite(cond, old[len(old)-1-i][b], old[i][b])
+			}
+			el[lo+i] = nw
+		}
+		return Opaque("void"), true
 	}
 	switch name {
 	case "(*strings.Builder).WriteString", "(*bytes.Buffer).WriteString", "(*strings.Builder).Write", "(*bytes.Buffer).Write":
